@@ -197,7 +197,7 @@ let search_tr tn conns ans env want =
                    (match q.qph with QDone _ -> true | _ -> false) &&
                    int_of_nat (q_outcome q) = wantc.(r) && q_own (nat r) q) rqs in
   let visited = Hashtbl.create 65536 in
-  let budget = ref 400000 in
+  let budget = ref 30000 in
   let rec go s bind preq pans =
     let k = key s bind preq pans in
     if Hashtbl.mem visited k || !budget <= 0 then false
@@ -215,7 +215,7 @@ let search_tr tn conns ans env want =
             let t = nat r in
             List.exists (fun g -> same (Grab (t, nat g)) || same (Connect (t, nat g))
                                   || (allow_c && same (ConnectOrphan (t, nat g)))) [0; 1]
-            || ((allow_f || allow_c) && same (ConnectFail t))
+            || ((allow_f || allow_c || allow_i) && same (ConnectFail t))   (* i: the pool was shut down (CloseIdleConnections cancels its context) *)
             || same (HandOff t) || same (Await t)
             || ((allow_f || allow_c) && same (Cancel t))) rqs
         || List.exists (fun c ->
@@ -257,7 +257,7 @@ let search_tr tn conns ans env want =
         match pstep s (ConnectOrphan (nat (100 + n), nat g)) with
         | Some s' -> (s', n + 1) | None -> (s, n + 1)) (pinit, 0) ws in
     fst s in
-  if List.exists (fun ws -> Hashtbl.reset visited; budget := 400000; go (start ws) [] [] []) warm_sets
+  if List.exists (fun ws -> Hashtbl.reset visited; budget := 30000; go (start ws) [] [] []) warm_sets
   then want ^ " own" else "NORUN"
 
 (* ------------------------------------------------------------------ av *)
